@@ -281,6 +281,7 @@ def _judge_builtin(case, out, clock, lys_mod, real_waste):
     if case.get("decoy"):
         _decoys.lysosome(case["decoy"], lys_mod)
         out.label("decoy")
+        _decoys.note(out)
     resources = []
     ingested = expired = dropped = 0
     out.label("builtin-digesters")
